@@ -32,14 +32,19 @@ fn nss_cbor(m: &[(String, Vec<String>)]) -> Value {
 pub fn run(ctx: &mut Ctx) {
     let sessions = ctx.budget(200, 6000);
     let rounds_max = if ctx.thorough { 4 } else { 3 };
-    for _ in 0..sessions {
+    // after the generated sessions: scripted ones (`script`), one round each — near-miss names (docType, namespace and
+    // identifier spellings that differ from a held one in case or padding only) and age attestations that are not held
+    // while a neighbouring one is
+    const SCRIPTS: u64 = 6;
+    for si in 0..sessions + SCRIPTS {
+        let script: Option<u64> = if si >= sessions { Some(si - sessions) } else { None };
         let mut rng = ctx.rng.clone();
         let pki = Pki::generate(&mut rng);
         // held documents
         let mut held: Held = BTreeMap::new();
         let mut keys: BTreeMap<String, SigningKey> = BTreeMap::new();
         let mut mdocs = vec![];
-        let ndocs = rng.gen_range(1..=3);
+        let ndocs = if script.is_some() { 1 } else { rng.gen_range(1..=3) };
         for (i, dt) in DTS.iter().take(ndocs).enumerate() {
             let mut namespaces: BTreeMap<String, BTreeMap<String, Value>> = BTreeMap::new();
             let mut chosen = subset(&mut rng, &NSS, 0.7);
@@ -49,6 +54,10 @@ pub fn run(ctx: &mut Ctx) {
                 for id in subset(&mut rng, &IDS, 0.6) { els.insert(id.to_string(), Value::Text(format!("{dt}/{ns}/{id}"))); }
                 if els.is_empty() { els.insert("x".into(), Value::Bool(true)); }
                 namespaces.insert(ns.to_string(), els);
+            }
+            if script.is_some() {
+                namespaces = [(NS.to_string(), [("family_name".to_string(), Value::Text("Doe".into())), ("age_over_21".to_string(), Value::Bool(true)),
+                                                ("age_over_65".to_string(), Value::Bool(false))].into_iter().collect())].into_iter().collect();
             }
             let cannot_sign = i > 0 && rng.gen_bool(0.2);
             let mdoc = if cannot_sign {
@@ -74,9 +83,10 @@ pub fn run(ctx: &mut Ctx) {
         let mut dev = e.dev;
         let docs_cbor = arr(held.iter().map(|(dt, (cs, nsm))| arr(vec![text(dt), Value::Bool(*cs),
             arr(nsm.iter().map(|(ns, im)| arr(vec![text(ns), arr(im.iter().map(|(id, b)| arr(vec![text(id), bytes(b)])).collect())])).collect())])).collect());
-        let nrounds = rng.gen_range(1..=rounds_max);
+        let nrounds = if script.is_some() { 1 } else { rng.gen_range(1..=rounds_max) };
         for round in 0..nrounds {
             // request entries (duplicated docTypes are rare on purpose: they have their own class)
+            #[allow(unused_assignments)]
             let mut req: Vec<(String, Vec<(String, Vec<String>)>)> = vec![];
             let nreq = rng.gen_range(1..=4);
             for _ in 0..nreq {
@@ -101,6 +111,20 @@ pub fn run(ctx: &mut Ctx) {
                 }
                 perm.insert(dt.to_string(), m);
             }
+            if let Some(k) = script {
+                let sv = |v: &[&str]| -> Vec<String> { v.iter().map(|s| s.to_string()).collect() };
+                let (dt, ns, ids, pdts, pnss): (&str, &str, Vec<String>, Vec<&str>, Vec<&str>) = match k {
+                    0 => (MDL, NS, sv(&["age_over_18", "age_over_60", "age_over_70", "family_name"]), vec![MDL], vec![NS]),
+                    1 => ("org.iso.18013.5.1.MDL", NS, sv(&["family_name", "age_over_21"]), vec![MDL], vec![NS]),
+                    2 => ("ORG.ISO.18013.5.1.MDL", NS, sv(&["family_name", "age_over_21"]), vec![MDL, "ORG.ISO.18013.5.1.MDL"], vec![NS]),
+                    3 => (MDL, "ORG.ISO.18013.5.1", sv(&["family_name"]), vec![MDL], vec![NS, "ORG.ISO.18013.5.1"]),
+                    4 => (MDL, NS, sv(&["Family_Name", "family_name ", "age_over_021", "age_over_2", "AGE_OVER_21"]), vec![MDL], vec![NS]),
+                    _ => (MDL, NS, sv(&["age_over_99", "age_over_00"]), vec![MDL], vec![NS]),
+                };
+                req = vec![(dt.to_string(), vec![(ns.to_string(), ids.clone())])];
+                perm = pdts.iter().map(|d| (d.to_string(), pnss.iter().map(|n| (n.to_string(), [ids.clone(), sv(&["family_name", "age_over_21", "age_over_65"])].concat())).collect())).collect();
+                ctx.count(&format!("script:{k}"));
+            }
             let items: RequestedItems = req.iter().map(|(dt, nss)| ItemsRequest {
                 doc_type: dt.clone(),
                 namespaces: namespaces_of(&nss.iter().cloned().collect()),
@@ -115,7 +139,7 @@ pub fn run(ctx: &mut Ctx) {
             let permitted: PermittedItems = perm.clone();
             // one round in four: an earlier answer to the same request was prepared with EVERYTHING permitted and then
             // abandoned (before signing, or signed but never retrieved); the answer sent must be the later one's
-            let abandon = rng.gen_range(0..8);
+            let abandon = if script.is_some() { 7 } else { rng.gen_range(0..8) };
             if abandon < 2 {
                 let all: PermittedItems = DTS.iter().map(|dt| (dt.to_string(), NSS.iter().map(|ns| (ns.to_string(), IDS.iter().map(|i| i.to_string()).collect())).collect())).collect();
                 let _ = catch(|| {
